@@ -117,18 +117,58 @@ func execRun(r *Run) Obs {
 	return o
 }
 
-// crashSite: "file.go:pkg.func" of the first frame inside the sysl module; for a stack overflow the frames of
-// the `goroutine N [running]` section are used (the runtime frames come first).
+// crashSite: "file.go:pkg.func" of the first frame of the crashing goroutine that belongs to the sysl module
+// (packages under github.com/anz-bank/sysl/ or cmd/sysl's package main). For a stack overflow the frame that
+// occurs most often in the (elided) trace is taken: it is the function that recurses.
 func crashSite(stderr string) string {
 	t := stderr
-	if i := strings.Index(t, "goroutine "); i >= 0 {
-		t = t[i:]
+	if i := strings.Index(t, "\ngoroutine "); i >= 0 {
+		t = t[i+1:]
 	}
-	s := common.PanicSite(t)
-	if strings.Contains(stderr, "stack overflow") && !strings.HasPrefix(s, "stack-overflow") {
-		s = "stack-overflow@" + s
+	lines := strings.Split(t, "\n")
+	type fr struct{ fn, file string }
+	var frames []fr
+	for i := 0; i+1 < len(lines); i++ {
+		l := strings.TrimSpace(lines[i])
+		nx := strings.TrimSpace(lines[i+1])
+		if !strings.HasPrefix(nx, "/") || !strings.Contains(nx, ".go:") {
+			continue
+		}
+		inSysl := strings.HasPrefix(l, "github.com/anz-bank/sysl/") || (strings.HasPrefix(l, "main.") && strings.Contains(nx, "/cmd/sysl/"))
+		if !inSysl {
+			continue
+		}
+		fn := l
+		if j := strings.LastIndex(fn, "("); j > 0 {
+			fn = fn[:j]
+		}
+		fn = fn[strings.LastIndex(fn, "/")+1:]
+		file := nx[strings.LastIndex(nx, "/")+1:]
+		if k := strings.Index(file, ":"); k >= 0 {
+			file = file[:k]
+		}
+		frames = append(frames, fr{fn, file})
 	}
-	return s
+	if len(frames) == 0 {
+		if strings.Contains(stderr, "stack overflow") {
+			return "stack-overflow"
+		}
+		return "unknown"
+	}
+	if strings.Contains(stderr, "stack overflow") {
+		cnt := map[fr]int{}
+		best := frames[0]
+		for _, f := range frames {
+			cnt[f]++
+		}
+		for _, f := range frames {
+			if cnt[f] > cnt[best] {
+				best = f
+			}
+		}
+		return "stack-overflow@" + best.file + ":" + best.fn
+	}
+	return frames[0].file + ":" + frames[0].fn
 }
 
 func firstLine(s, marker string) string {
@@ -190,6 +230,11 @@ func matrix(rng *common.Rng, m *SModel, text string, thorough bool) []*Run {
 		runs = append(runs, r)
 		return r
 	}
+	addx := func(class string, argv ...string) { // an extra option set: always in thorough, one in five in quick
+		if thorough || rng.Intn(5) == 0 {
+			add(class, argv...)
+		}
+	}
 	var apps, eps []string // eps as "App <- Ep"
 	type ae struct{ a, e string }
 	var aes []ae
@@ -222,76 +267,80 @@ func matrix(rng *common.Rng, m *SModel, text string, thorough bool) []*Run {
 	// pb
 	add("pb", "pb", "--mode", "textpb", "-o", "out/m.textpb", "m.sysl")
 	add("pb", "pb", "--mode", "json", "-o", "out/m.json", "m.sysl")
-	add("pb", "pb", "--mode", "textpb", "--compact", "m.sysl")
+	addx("pb", "pb", "--mode", "textpb", "--compact", "m.sysl")
 	if len(apps) > 0 {
-		add("pb", "pb", "--mode", "json", "--filter", apps[0], "-o", "out/m.json", "m.sysl")
-		add("pb", "pb", "--mode", "json", "--split-apps", "out/split", "m.sysl")
+		addx("pb", "pb", "--mode", "json", "--filter", apps[0], "-o", "out/m.json", "m.sysl")
+		addx("pb", "pb", "--mode", "json", "--split-apps", "out/split", "m.sysl")
 	}
 	add("validate", "validate", "m.sysl")
 	// sd
-	for _, i := range some(3, len(eps)) {
+	for _, i := range some(2, len(eps)) {
 		add("sd", "sd", "-o", "out/sd.puml", "-s", eps[i], "m.sysl")
 	}
 	if len(eps) > 0 {
 		i := rng.Intn(len(eps))
-		add("sd", "sd", "-o", "out/sd.puml", "-s", eps[i], "-b", eps[rng.Intn(len(eps))]+"=box", "-t", "Title", "m.sysl")
-		add("sd", "sd", "-o", "out/sd.puml", "-s", eps[i], "-g", "owner", "--endpoint_format", "%(epname) %(@x)", "--app_format", "%(appname) %(@y)", "m.sysl")
+		addx("sd", "sd", "-o", "out/sd.puml", "-s", eps[i], "-b", eps[rng.Intn(len(eps))]+"=box", "-t", "Title", "m.sysl")
+		addx("sd", "sd", "-o", "out/sd.puml", "-s", eps[i], "-g", "owner", "--endpoint_format", "%(epname) %(@x)", "--app_format", "%(appname) %(@y)", "m.sysl")
 	}
-	add("sd", "sd", "-o", "out/sd.puml", "-s", "Ghost0 <- Gone", "m.sysl")
+	addx("sd", "sd", "-o", "out/sd.puml", "-s", "Ghost0 <- Gone", "m.sysl")
 	if len(apps) > 0 {
-		add("sd", "sd", "-o", "out/sd.puml", "-s", apps[0]+" <- NoSuchEp", "m.sysl")
-		add("sd", "sd", "-o", "out/%(epname).puml", "-a", apps[rng.Intn(len(apps))], "m.sysl")
+		addx("sd", "sd", "-o", "out/sd.puml", "-s", apps[0]+" <- NoSuchEp", "m.sysl")
+		addx("sd", "sd", "-o", "out/%(epname).puml", "-a", apps[rng.Intn(len(apps))], "m.sysl")
 	}
-	add("sd", "sd", "-o", "out/%(epname).puml", "-a", m.Project, "m.sysl")
+	addx("sd", "sd", "-o", "out/%(epname).puml", "-a", m.Project, "m.sysl")
 	// ints
 	add("ints", "ints", "-o", "out/%(epname).puml", "-j", m.Project, "m.sysl")
 	add("ints-epa", "ints", "--epa", "-o", "out/%(epname).puml", "-j", m.Project, "m.sysl")
 	add("ints-clustered", "ints", "-c", "-o", "out/%(epname).puml", "-j", m.Project, "-t", "T", "m.sysl")
 	if len(apps) > 0 {
-		add("ints", "ints", "-o", "out/%(epname).puml", "-j", m.Project, "-e", apps[rng.Intn(len(apps))], "m.sysl")
-		add("ints", "ints", "-o", "out/%(epname).puml", "-j", apps[0], "m.sysl")
+		addx("ints", "ints", "-o", "out/%(epname).puml", "-j", m.Project, "-e", apps[rng.Intn(len(apps))], "m.sysl")
+		addx("ints", "ints", "-o", "out/%(epname).puml", "-j", apps[0], "m.sysl")
 	}
-	add("ints", "ints", "-o", "out/%(epname).puml", "-j", "NoSuchProject", "m.sysl")
+	addx("ints", "ints", "-o", "out/%(epname).puml", "-j", "NoSuchProject", "m.sysl")
 	// datamodel
 	add("datamodel", "datamodel", "-o", "out/%(epname).puml", "-j", m.Project, "m.sysl")
-	add("datamodel", "datamodel", "-o", "out/dm.puml", "-j", m.Project, "-t", "T", "m.sysl")
+	addx("datamodel", "datamodel", "-o", "out/dm.puml", "-j", m.Project, "-t", "T", "m.sysl")
 	add("datamodel-direct", "datamodel", "-d", "-o", "out/%(epname).puml", "m.sysl")
-	add("datamodel-direct", "datamodel", "-d", "-o", "out/dm.puml", "--class_format", "%(classname) %(@x)", "m.sysl")
-	add("datamodel", "datamodel", "-o", "out/%(epname).puml", "-j", "NoSuchProject", "m.sysl")
+	addx("datamodel-direct", "datamodel", "-d", "-o", "out/dm.puml", "--class_format", "%(classname) %(@x)", "m.sysl")
+	addx("datamodel", "datamodel", "-o", "out/%(epname).puml", "-j", "NoSuchProject", "m.sysl")
 	// diagram (mermaid)
 	add("diagram-integration", "diagram", "-i", "-o", "out/d.svg", "m.sysl")
-	for _, i := range some(2, len(apps)) {
+	for _, i := range some(1, len(apps)) {
 		add("diagram-integration", "diagram", "-i", "-a", apps[i], "-o", "out/d.svg", "m.sysl")
 	}
-	add("diagram-integration", "diagram", "-i", "-a", "Ghost0", "-o", "out/d.svg", "m.sysl")
-	for _, i := range some(3, len(aes)) {
+	addx("diagram-integration", "diagram", "-i", "-a", "Ghost0", "-o", "out/d.svg", "m.sysl")
+	for _, i := range some(2, len(aes)) {
 		add("diagram-sequence", "diagram", "-s", "-a", aes[i].a, "-e", aes[i].e, "-o", "out/d.svg", "m.sysl")
 	}
-	add("diagram-sequence", "diagram", "-s", "-a", "Ghost0", "-e", "Gone", "-o", "out/d.svg", "m.sysl")
+	addx("diagram-sequence", "diagram", "-s", "-a", "Ghost0", "-e", "Gone", "-o", "out/d.svg", "m.sysl")
 	if len(apps) > 0 {
-		add("diagram-sequence", "diagram", "-s", "-a", apps[0], "-e", "NoSuchEp", "-o", "out/d.svg", "m.sysl")
+		addx("diagram-sequence", "diagram", "-s", "-a", apps[0], "-e", "NoSuchEp", "-o", "out/d.svg", "m.sysl")
 	}
-	add("diagram-sequence", "diagram", "-s", "-o", "out/d.svg", "m.sysl")
+	addx("diagram-sequence", "diagram", "-s", "-o", "out/d.svg", "m.sysl")
 	add("diagram-data", "diagram", "-d", "-o", "out/d.svg", "m.sysl")
-	add("diagram", "diagram", "-o", "out/d.svg", "m.sysl")
+	addx("diagram", "diagram", "-o", "out/d.svg", "m.sysl")
 	// export
 	for _, f := range []string{"swagger", "openapi2", "openapi3", "spanner", "proto"} {
-		add("export-"+f, "export", "-f", f, "-o", "out/%(appname).yaml", "m.sysl")
+		if f == "spanner" || f == "proto" {
+			addx("export-"+f, "export", "-f", f, "-o", "out/%(appname).yaml", "m.sysl")
+		} else {
+			add("export-"+f, "export", "-f", f, "-o", "out/%(appname).yaml", "m.sysl")
+		}
 		for _, i := range some(1, len(apps)) {
-			add("export-"+f, "export", "-f", f, "-a", apps[i], "-o", "out/x.json", "m.sysl")
+			addx("export-"+f, "export", "-f", f, "-a", apps[i], "-o", "out/x.json", "m.sysl")
 		}
 	}
-	add("export-swagger", "export", "-f", "swagger", "-a", "Ghost0", "-o", "out/x.yaml", "m.sysl")
-	add("export-openapi3", "export", "-f", "openapi3", "-a", "Ghost0", "-o", "out/x.yaml", "m.sysl")
-	add("export", "export", "-f", "nosuchformat", "-o", "out/x.yaml", "m.sysl")
+	addx("export-swagger", "export", "-f", "swagger", "-a", "Ghost0", "-o", "out/x.yaml", "m.sysl")
+	addx("export-openapi3", "export", "-f", "openapi3", "-a", "Ghost0", "-o", "out/x.yaml", "m.sysl")
+	addx("export", "export", "-f", "nosuchformat", "-o", "out/x.yaml", "m.sysl")
 	// database scripts
 	if len(apps) > 0 {
 		add("generate-db-scripts", "generate-db-scripts", "-o", "out/", "-a", strings.Join(apps, ","), "-d", "postgres", "-t", "T", "m.sysl")
-		for _, i := range some(2, len(apps)) {
+		for _, i := range some(1, len(apps)) {
 			add("generate-db-scripts", "generate-db-scripts", "-o", "out/", "-a", apps[i], "-d", "postgres", "-t", "T", "m.sysl")
 		}
-		add("generate-db-scripts", "generate-db-scripts", "-o", "out/", "-a", "Ghost0", "-d", "postgres", "-t", "T", "m.sysl")
-		add("generate-db-scripts", "generate-db-scripts", "-o", "out/", "-a", apps[0], "-d", "mysql", "-t", "T", "m.sysl")
+		addx("generate-db-scripts", "generate-db-scripts", "-o", "out/", "-a", "Ghost0", "-d", "postgres", "-t", "T", "m.sysl")
+		addx("generate-db-scripts", "generate-db-scripts", "-o", "out/", "-a", apps[0], "-d", "mysql", "-t", "T", "m.sysl")
 	}
 	return runs
 }
@@ -381,7 +430,7 @@ func main() {
 		return
 	}
 
-	nShapeRounds, nRandom, nTidy, nImport, nDelta := 1, 14, 3, 1, 6
+	nShapeRounds, nRandom, nTidy, nImport, nDelta := 1, 12, 2, 1, 8
 	if c.Thorough() {
 		nRandom, nTidy, nImport, nDelta = 160, 20, 4, 60
 	}
